@@ -10,16 +10,330 @@ completely; the 60-cell table is enumerated exhaustively.
 from __future__ import annotations
 
 import ast
-from typing import Dict, List, Optional, Set
+from typing import Dict, List, Optional, Set, Tuple
 
-from ..astutil import Defs, loads, raise_class
-from ..cfg import cfg_of
-from ..core import AnalysisError, attr_chain, short, walk_no_nested, walk_stmts
-from ..joins import VARIANTS, JoinFacts, _callee
+from ..core import AnalysisError, short
+from ..joinsx import VARIANTS, JoinModel
+from ..symx import NONE, Event, callee, const, elements, show, show_conds, subterms
 
 SPEC_VALID = {"one_to_one", "many_to_one", "one_to_many", "many_to_many"}
 SPEC_RIGHT = {"one_to_one", "many_to_one"}     # expectations that require unique RIGHT keys
 SPEC_LEFT = {"one_to_one", "one_to_many"}      # expectations that require unique LEFT keys
+
+
+def _str_set(it, t) -> Optional[Set[str]]:
+    """A literal collection of strings: tuple / list / set display, frozenset(...) of one."""
+    if t[0] == "tuple":
+        items = t[1]
+    elif t[0] == "obj" and it.objs[t[1]].kind in ("list", "set") and isinstance(it.objs[t[1]].node, (ast.List, ast.Set)) \
+            and not it._mutated(t):
+        items = it.objs[t[1]].init
+    elif t[0] == "call" and t[1] in (("name", "frozenset"), ("name", "set"), ("name", "tuple")) and len(t[2]) == 1:
+        return _str_set(it, t[2][0])
+    elif t[0] == "obj" and it.objs[t[1]].kind in ("set", "list") and isinstance(it.objs[t[1]].node, ast.Call) and len(it.objs[t[1]].init) == 1:
+        return _str_set(it, it.objs[t[1]].init[0])
+    else:
+        return None
+    if all(x[0] == "const" and isinstance(x[2], str) for x in items):
+        return {x[2] for x in items}
+    return None
+
+
+def _flag_set(it, expect, t) -> Optional[Set[str]]:
+    """t == (expect in {literals})  ->  the literals;  (expect == 'x') -> {'x'}."""
+    if t[0] == "cmp" and t[1] == "In" and t[2] == expect:
+        return _str_set(it, t[3])
+    if t[0] == "cmp" and t[1] == "Eq" and expect in (t[2], t[3]):
+        o = t[3] if t[2] == expect else t[2]
+        return {o[2]} if o[0] == "const" and isinstance(o[2], str) else None
+    if t[0] == "bool" and t[1] == "or":
+        out: Set[str] = set()
+        for x in t[2]:
+            r = _flag_set(it, expect, x)
+            if r is None:
+                return None
+            out |= r
+        return out
+    return None
+
+
+def _exc_class(t) -> Optional[str]:
+    if t is None:
+        return None
+    if t[0] == "call" and t[1][0] == "name":
+        return t[1][1]
+    if t[0] == "name":
+        return t[1]
+    return None
+
+
+def _mentions(t, what) -> bool:
+    return t is not None and any(x == what for x in subterms(t))
+
+
+class _Card:
+    """The cardinality structure of one join variant, read off the event log."""
+
+    def __init__(self, jm: JoinModel):
+        self.jm = jm
+        it = self.it = jm.it
+        self.expect = ("param", jm.p[4])
+        ex = self.expect
+        self.problems: Dict[str, List[Tuple[str, ast.AST]]] = {k: [] for k in ("valid", "first", "right", "left", "influence")}
+        raises = [e for e in it.events if e.kind == "raise"]
+        # ---- validation: the raise whose LAST condition is `expect not in <literals>`
+        self.validation: Optional[Event] = None
+        self.valid_set: Optional[Set[str]] = None
+        for e in raises:
+            if e.conds and not e.loops:
+                t, pol = e.conds[-1]
+                vs = _flag_set(it, ex, t)
+                if vs is not None and not pol and len(e.conds) == 1:
+                    self.validation, self.valid_set = e, vs
+        # ---- flag-guarded raises
+        self.right_raise = self.left_raise = None
+        self.R: Set[str] = set()
+        self.L: Set[str] = set()
+        self.flag_lits: List[Tuple] = []
+        for e in raises:
+            if e is self.validation:
+                continue
+            lits = self._flag_literals(e.conds)
+            if not lits:
+                continue
+            if len(lits) != 1:
+                raise AnalysisError(f"{jm.f.qualname}: a raise is guarded by several cardinality tests")
+            (lit, fs) = lits[0]
+            if jm.probe_loop in e.loops:
+                if self.left_raise is not None and fs != self.L:
+                    raise AnalysisError(f"{jm.f.qualname}: two different expect sets guard raises in the probe loop")
+                self.left_raise, self.L, self.left_lit = e, fs, lit
+            else:
+                if self.right_raise is not None and fs != self.R:
+                    raise AnalysisError(f"{jm.f.qualname}: two different expect sets guard raises outside the probe loop")
+                self.right_raise, self.R, self.right_lit = e, fs, lit
+
+    def _flag_literals(self, conds) -> List[Tuple]:
+        """(literal term, its expect set) for every condition literal (also inside `a and b`) that tests expect
+        positively against a literal set - the validation literal excluded."""
+        out = []
+        for t, pol in conds:
+            parts = [(t, pol)]
+            if t[0] == "bool" and t[1] == "and" and pol:
+                parts = [(x, True) for x in t[2]]
+            for x, p in parts:
+                fs = _flag_set(self.it, self.expect, x)
+                if fs is not None and p and not (self.validation is not None and x == self.validation.conds[-1][0]):
+                    out.append((x, fs))
+        return out
+
+    def split(self, conds) -> List[Tuple]:
+        """Flatten `a and b` (taken true) into literals."""
+        from ..symx import strip_not
+        out = []
+        for t, pol in conds:
+            if t[0] == "bool" and t[1] == "and" and pol:
+                for x in t[2]:
+                    b, flip = strip_not(x)
+                    out.append((b, not flip))
+            else:
+                out.append((t, pol))
+        return out
+
+
+def _right_check(c: _Card) -> Tuple[bool, str, Optional[ast.AST]]:
+    jm, it = c.jm, c.it
+    e = c.right_raise
+    if e is None:
+        return False, "no raise guarded by a right-uniqueness expect set was found outside the probe loop", None
+    if _exc_class(e.term) != "SerifValueError":
+        return False, f"right-duplicate raise uses {_exc_class(e.term)}, must be SerifValueError", e.node
+    il = it.loops[jm.index_loop]
+    lits = c.split(e.conds)
+    vlit = c.validation.conds[-1][0] if c.validation is not None else None
+    lits = [(t, p) for t, p in lits if t != vlit and t != c.right_lit]
+    if jm.index_loop in e.loops:
+        # raise on the spot: under (flag, key already has a bucket)
+        inside = [(t, p) for t, p in lits if (t, p) in c.split(jm.conds_inside(e, il.id))]
+        ok = len(inside) == 1 and _repeat_test(jm, inside[0]) and len(lits) == 1
+        if not ok:
+            return False, (f"right-duplicate raise in the index loop happens under `{show_conds(lits, it)[:90]}`, expected exactly "
+                           f"(flag and the key already has a bucket)"), e.node
+        return True, "raise SerifValueError iff the right flag holds and a right key repeats (checked while indexing)", e.node
+    # raise after the index loop: under (flag and <duplicates non-empty>)
+    if e.loops:
+        return False, "right-duplicate raise is inside another loop", e.node
+    ie = jm.index_events
+    probe_events = jm.events_in(jm.probe_loop)
+    if not (ie and max(x.seq for x in ie) < e.seq and (not probe_events or e.seq < min(x.seq for x in probe_events))):
+        return False, "right-duplicate raise is not between the index loop and the probe loop", e.node
+    dups = _core_obj(lits[0][0]) if len(lits) == 1 and lits[0][1] else None
+    if dups is None:
+        return False, f"right-duplicate condition is `{show_conds(lits, it)[:90]}` besides the flag, expected `<flag> and <duplicates>`", e.node
+    o = it.objs[dups[1]]
+    if o.init or o.kind not in ("dict", "list", "set"):
+        return False, "the duplicates record is not initialised empty", e.node
+    fills = [x for x in it.events if x.kind == "store" and x.term[0] == "sub" and _core_obj(x.term[1]) == dups] + \
+            [x for x in it.events if x.kind == "call" and x.term[1][0] == "attr" and _core_obj(x.term[1][1]) == dups
+             and x.term[1][2] in ("append", "add", "setdefault", "update")]
+    if not fills:
+        return False, "the duplicates record never receives an entry", e.node
+    for x in it.events:
+        if x.kind == "call" and x.term[1][0] == "attr" and _core_obj(x.term[1][1]) == dups and x.term[1][2] in (
+                "pop", "clear", "popitem", "__delitem__", "remove", "discard"):
+            return False, f"the duplicates record is also modified by .{x.term[1][2]}()", x.node
+        if x.kind == "del" and x.term[0] == "sub" and _core_obj(x.term[1]) == dups:
+            return False, "entries of the duplicates record are deleted", x.node
+    for st in fills:
+        if il.id not in st.loops:
+            return False, "the duplicates record is filled outside the index loop", st.node
+        g = c.split(jm.conds_inside(st, il.id))
+        rep = [x for x in g if _repeat_test(jm, x)]
+        first = [x for x in g if _repeat_test(jm, (x[0], not x[1]))]
+        if first:
+            return False, "a duplicate is recorded on FIRST sight of a key, not on a repeat", st.node
+        if not rep:
+            return False, "the duplicates entry is not in the repeated-key branch of the bucket test", st.node
+        for t, p in g:
+            if (t, p) in rep:
+                continue
+            if t == c.right_lit and p:
+                continue
+            if t[0] == "cmp" and t[1] == "In" and _core_obj(t[3]) == dups and not p:
+                continue            # `key not in duplicates`
+            return False, f"the duplicates entry is additionally guarded by `{show_conds([(t, p)], it)[:70]}`", st.node
+    return True, "raise SerifValueError iff the right flag holds and a right key repeats (recorded while indexing all right rows)", e.node
+
+
+def _core_obj(t):
+    """The object behind a conditionally created local: obj | (obj if <flag> else <unbound>)."""
+    if t[0] == "obj":
+        return t
+    if t[0] == "ifexp":
+        objs = [x for x in (t[2], t[3]) if x[0] == "obj"]
+        rest = [x for x in (t[2], t[3]) if x[0] != "obj"]
+        if len(objs) == 1 and rest and rest[0][0] == "unbound":
+            return objs[0]
+    return None
+
+
+def _repeat_test(jm: JoinModel, c) -> bool:
+    """`the key of the row being indexed already has a bucket`"""
+    from .joinrules import _first_sight
+    t, pol = c
+    return _first_sight(jm, (t, not pol))
+
+
+def _left_check(c: _Card) -> Tuple[bool, str, Optional[ast.AST]]:
+    jm, it = c.jm, c.it
+    e = c.left_raise
+    if e is None:
+        return False, "no raise guarded by a left-uniqueness expect set was found in the probe loop", None
+    if _exc_class(e.term) != "SerifValueError":
+        return False, f"left-duplicate raise uses {_exc_class(e.term)}, must be SerifValueError", e.node
+    pl = it.loops[jm.probe_loop]
+    key = None
+    b = jm.bucket
+    key = b[2][0] if b[0] == "call" else b[2]
+    inside = c.split(jm.conds_inside(e, pl.id))
+    rest = [(t, p) for t, p in inside if t != c.left_lit]
+    if len(rest) != 1 or not rest[0][1] or not (rest[0][0][0] == "cmp" and rest[0][0][1] == "In" and rest[0][0][2] == key):
+        return False, (f"left-duplicate raise is under `{show_conds(inside, it)[:100]}`; expected exactly (flag and key of this row already "
+                       f"seen) - any other condition lets some rows skip the check"), e.node
+    if e.loops != (pl.id,):
+        return False, "the left-duplicate raise is nested in another loop", e.node
+    seen = rest[0][0][3]
+    # `seen` may be conditionally created (`if flag: seen = set()`): strip the conditional
+    seen_objs = [x for x in subterms(seen) if x[0] == "obj"]
+    if len(seen_objs) != 1 or it.objs[seen_objs[0][1]].kind != "set" or it.objs[seen_objs[0][1]].init:
+        return False, "the record of seen left keys is not initialised as an empty set", e.node
+    so = seen_objs[0]
+    adds = []
+    for x in it.events:
+        if x.kind == "call" and x.term[1][0] == "attr" and so in list(subterms(x.term[1][1])) and x.term[1][1][0] in ("obj", "ifexp"):
+            if x.term[1][2] == "add":
+                adds.append(x)
+            elif x.term[1][2] not in ("__contains__", "__len__", "copy"):
+                return False, f"the seen-keys record is also modified by .{x.term[1][2]}()", x.node
+    good = [a for a in adds if a.term[2] == (key,) and a.loops == (pl.id,)]
+    if len(good) != 1 or len(adds) != 1:
+        return False, f"the key of every probed row is not recorded exactly once ({len(adds)} add site(s))", (adds[0].node if adds else e.node)
+    a = good[0]
+    ac = c.split(jm.conds_inside(a, pl.id))
+    want = [(c.left_lit, True), (rest[0][0], False)]
+    if sorted(map(repr, ac)) != sorted(map(repr, want)):
+        if a.seq < e.seq or (rest[0][0], False) not in ac:
+            return False, "the key is recorded before it is tested (every key would look repeated) or not on every checked row", a.node
+        return False, f"the key is recorded only under `{show_conds(ac, it)[:90]}`", a.node
+    # the check precedes the matched/unmatched split: it happens before the index is consulted in the iteration
+    firsts = [x.seq for x in jm.events_in(pl.id) if x.kind == "call" and jm.bucket_of(x.term) is not None]
+    ems = [x.ev.seq for x in jm.emissions() if pl.id in x.ev.loops]
+    if (firsts and min(firsts) < e.seq) or (ems and min(ems) < e.seq):
+        return False, "the index lookup / emission happens before the left-uniqueness check", e.node
+    return True, ("raise SerifValueError iff the left flag holds and the left key was seen before; key recorded every iteration; "
+                  "check precedes the matched/unmatched split"), e.node
+
+
+def _no_influence(c: _Card) -> Tuple[bool, str, Optional[ast.AST]]:
+    """expect (and everything computed from it) reaches only the cardinality tests, their bookkeeping and messages."""
+    jm, it = c.jm, c.it
+    ex = c.expect
+    raise_guards = set()
+    for e in it.events:
+        if e.kind == "raise" and e.conds:
+            raise_guards.add(e.conds[-1][0])
+    # bookkeeping objects: whatever the flag-guarded raises test (seen set, duplicates record)
+    book = set()
+    for r in (c.left_raise, c.right_raise):
+        if r is not None:
+            for t, p in c.split(r.conds):
+                for x in subterms(t):
+                    if x[0] == "obj" and it.objs[x[1]].kind in ("set", "dict", "list") and x not in (jm.index, jm.RD):
+                        book.add(x)
+    structural = [jm.index, jm.RD, jm.pairs]
+
+    def is_book(e: Event) -> bool:
+        if e.kind == "raise":
+            return True
+        tm = e.term
+        if e.kind in ("store", "del") and tm[0] == "sub" and any(b in list(subterms(tm[1])) for b in book):
+            return True
+        if e.kind == "call" and tm[1][0] == "attr" and any(b in list(subterms(tm[1][1])) for b in book):
+            return True
+        if e.kind == "call" and e.value is not None and e.value in book:
+            return True           # creation of the bookkeeping object
+        return False
+    # events that only build a raise's message: their call term occurs inside a raise's exception term
+    msg_terms = set()
+    for r in it.events:
+        if r.kind == "raise" and r.term is not None:
+            for x in subterms(r.term):
+                if x[0] == "call":
+                    msg_terms.add(x)
+    for e in it.events:
+        if is_book(e) or (e.kind == "call" and e.term in msg_terms):
+            continue
+        # 1. data dependence
+        for tm in (e.term, e.value):
+            if tm is not None and _mentions(tm, ex):
+                # evaluating a cardinality test itself (expect in (...)) produces no event; anything else is influence
+                return False, (f"a statement that is not cardinality bookkeeping depends on expect: `{show(tm, it)[:80]}` "
+                               f"(line {getattr(e.node, 'lineno', '?')})"), e.node
+        # 2. control dependence: only the validation and the fall-through of raise guards may mention expect
+        for t, p in e.conds:
+            if not _mentions(t, ex):
+                continue
+            if t in raise_guards:
+                continue
+            return False, (f"`{show(e.term, it)[:60]}` (line {getattr(e.node, 'lineno', '?')}) runs only under `{show_conds([(t, p)], it)[:70]}`: "
+                           f"expect influences more than the cardinality raises"), e.node
+    for lp in it.loops.values():
+        if lp.iter is not None and _mentions(lp.iter, ex):
+            return False, f"a loop ranges over `{show(lp.iter, it)[:70]}`, which depends on expect", lp.node
+        for t, p in lp.conds:
+            if _mentions(t, ex) and t not in raise_guards:
+                return False, f"a loop runs only under `{show_conds([(t, p)], it)[:70]}`", lp.node
+    return True, "expect reaches only the cardinality tests, their bookkeeping and messages", None
 
 
 def run(ctx) -> None:
@@ -27,10 +341,10 @@ def run(ctx) -> None:
                             "one_to_many, many_to_many} with SerifValueError", 3)
     ctx.rule("a.table", "decision table cell (variant, expect, left-unique?, right-unique?) generated from the "
                         "extracted option sets equals the statement's table", 60)
-    ctx.rule("b.validation-first", "the expect validation dominates every other statement of the join", 3)
-    ctx.rule("b.right-check", "right-duplicate raise is control-dependent on exactly (right flag AND duplicates "
-                              "seen while indexing ALL right rows), raises SerifValueError", 3)
-    ctx.rule("b.left-check", "left-duplicate raise is control-dependent on exactly (left flag AND key already seen), "
+    ctx.rule("b.validation-first", "the expect validation precedes every other effect of the join", 3)
+    ctx.rule("b.right-check", "right-duplicate raise happens exactly under (right flag AND a right key repeats while indexing ALL "
+                              "right rows), raises SerifValueError", 3)
+    ctx.rule("b.left-check", "left-duplicate raise happens exactly under (left flag AND key already seen), "
                              "the key is recorded on every iteration, and the check precedes the matched/unmatched split", 3)
     ctx.rule("b.not-bypassed", "no return precedes the loops in which the uniqueness checks live (a fast path for an empty side "
                                "would accept duplicate keys)", 3)
@@ -38,35 +352,27 @@ def run(ctx) -> None:
                                "messages - never into the index, the result buffers, loop bounds or the return value", 3)
     ctx.exhaustive = True
     cells = []
+    from . import joinrules as _jr
     for variant in VARIANTS:
-        jf = JoinFacts(ctx.prog, variant)
-        f = jf.f
+        jm = JoinModel(ctx.prog, variant)
+        f, it = jm.f, jm.it
+        c = _Card(jm)
         # ---------------- a.valid-set ----------------
-        ok = jf.validation is not None and jf.valid_set == SPEC_VALID
-        cls = None
-        if jf.validation is not None:
-            r = [b for b in jf.validation.body if isinstance(b, ast.Raise)]
-            cls = raise_class(r[0]) if r else None
-            ok = ok and cls == "SerifValueError" and len(jf.validation.body) == 1
+        v = c.validation
+        cls = _exc_class(v.term) if v is not None else None
+        ok = v is not None and c.valid_set == SPEC_VALID and cls == "SerifValueError"
         ctx.ob("a.valid-set", f, "validation", ok,
-               f"{variant}: accepted values {sorted(jf.valid_set or [])}, raises {cls}",
-               jf.validation or f.node,
-               message=f"{variant}: expect validation accepts {sorted(jf.valid_set or [])} (must be {sorted(SPEC_VALID)}) "
+               f"{variant}: accepted values {sorted(c.valid_set or [])}, raises {cls}", v.node if v is not None else f.node,
+               message=f"{variant}: expect validation accepts {sorted(c.valid_set or [])} (must be {sorted(SPEC_VALID)}) "
                        f"and raises {cls} (must be SerifValueError)")
-        # ---------------- identify right/left flags by USE ----------------
-        right_flag, right_raise, left_flag, left_raise = _classify_flags(ctx, jf)
-        R = jf.flags[right_flag][0] if right_flag else set()
-        L = jf.flags[left_flag][0] if left_flag else set()
-        V = jf.valid_set or set()
+        R, L, V = c.R, c.L, (c.valid_set or set())
         # ---------------- a.table (exhaustive) ----------------
         for expect in sorted(SPEC_VALID) + ["<any other value>"]:
             for left_unique in (True, False):
                 for right_unique in (True, False):
                     if expect == "<any other value>":
                         spec = "raise"
-                        got = "raise" if jf.validation is not None and not (V - SPEC_VALID) and V <= SPEC_VALID and True else "accept"
-                        # any other value is rejected iff the validation exists (its set is finite)
-                        got = "raise" if jf.validation is not None else "accept"
+                        got = "raise" if v is not None else "accept"
                     else:
                         spec = "raise" if ((expect in SPEC_RIGHT and not right_unique) or
                                            (expect in SPEC_LEFT and not left_unique)) else "accept"
@@ -77,367 +383,35 @@ def run(ctx) -> None:
                                               (expect in L and not left_unique)) else "accept"
                     role = f"cell[{expect},left_unique={left_unique},right_unique={right_unique}]"
                     cells.append((variant, role, got))
-                    where = (jf.flags[left_flag][1] if (left_flag and expect in (L ^ SPEC_LEFT)) else
-                             jf.flags[right_flag][1] if (right_flag and expect in (R ^ SPEC_RIGHT)) else
-                             jf.validation or f.node)
+                    where = (c.left_raise.node if (c.left_raise is not None and expect in (L ^ SPEC_LEFT)) else
+                             c.right_raise.node if (c.right_raise is not None and expect in (R ^ SPEC_RIGHT)) else
+                             (v.node if v is not None else f.node))
                     ctx.ob("a.table", f, role, got == spec, f"{variant} {role}: {got}", where,
                            message=f"{variant}, expect={expect!r}, left keys {'unique' if left_unique else 'repeated'}, "
                                    f"right keys {'unique' if right_unique else 'repeated'}: code {got}s, must {spec} "
                                    f"(right-uniqueness selected by {sorted(R)}, left-uniqueness by {sorted(L)})")
         # ---------------- b.validation-first ----------------
-        cfg = cfg_of(f)
-        ok = jf.validation is not None
+        ok = v is not None
         msg = "no validation"
+        node = f.node
         if ok:
-            vnode = cfg.node_of(jf.validation)
-            offenders = [n for n in cfg.stmt_nodes()
-                         if cfg.is_reachable(n) and n is not vnode and not cfg.dominates(vnode, n)]
-            # statements before it (docstring) are harmless expression statements of constants
-            offenders = [n for n in offenders if not (isinstance(n.ast, ast.Expr) and isinstance(n.ast.value, ast.Constant))]
+            lit = v.conds[-1][0]
+            offenders = [e for e in it.events if e.kind in ("call", "store", "del", "raise", "return", "yield") and e is not v
+                         and (lit, True) not in e.conds and not (e.kind == "call" and e.seq < v.seq and e.conds == v.conds)]
             ok = not offenders
-            msg = (f"{len(offenders)} statement(s) can run before the expect validation, first: "
-                   f"{offenders[0].text()}" if offenders else "validation dominates all statements")
-        ctx.ob("b.validation-first", f, "validation", ok, msg, jf.validation or f.node, message=f"{variant}: {msg}")
-        # ---------------- b.right-check ----------------
-        ok, msg, node = _right_check(jf, right_flag, right_raise)
+            node = offenders[0].node if offenders else v.node
+            msg = (f"{len(offenders)} effect(s) can happen before / without the expect validation, first: "
+                   f"`{show(offenders[0].term, it)[:70]}`" if offenders else "validation precedes all effects")
+        ctx.ob("b.validation-first", f, "validation", ok, msg, node, message=f"{variant}: {msg}")
+        ok, msg, node = _right_check(c)
         ctx.ob("b.right-check", f, "right-raise", ok, msg, node or f.node, message=f"{variant}: {msg}")
-        # ---------------- b.left-check ----------------
-        ok, msg, node = _left_check(jf, left_flag, left_raise)
+        ok, msg, node = _left_check(c)
         ctx.ob("b.left-check", f, "left-raise", ok, msg, node or f.node, message=f"{variant}: {msg}")
-        # ---------------- b.not-bypassed ----------------
-        from . import joinrules as _jr
-        _jr.no_early_result(ctx, jf, "b.not-bypassed")
-        # ---------------- c.no-influence ----------------
-        ok, msg, node = _no_influence(jf)
+        _jr.no_early_result(ctx, jm, "b.not-bypassed")
+        ok, msg, node = _no_influence(c)
         ctx.ob("c.no-influence", f, "flag-dataflow", ok, msg, node or f.node, message=f"{variant}: {msg}")
     ctx.extra["decision_table_cells"] = len(cells)
     ctx.not_decided.append("nothing beyond C09's facts: that the index buckets hold exactly the key-equal right rows")
-
-
-# ---------------------------------------------------------------------------
-def _guards(jf: JoinFacts, target: ast.stmt) -> List[ast.AST]:
-    """The `if` tests (as (test, polarity)) under which `target` executes, innermost last."""
-    out = []
-
-    def visit(body, acc):
-        for st in body:
-            if st is target:
-                out.extend(acc)
-                return True
-            if isinstance(st, ast.If):
-                if visit(st.body, acc + [(st.test, True)]) or visit(st.orelse, acc + [(st.test, False)]):
-                    return True
-            elif isinstance(st, (ast.For, ast.While)):
-                if visit(st.body, acc) or visit(st.orelse, acc):
-                    return True
-            elif isinstance(st, ast.Try):
-                if visit(st.body, acc) or any(visit(h.body, acc) for h in st.handlers) or visit(st.orelse, acc):
-                    return True
-            elif isinstance(st, ast.With):
-                if visit(st.body, acc):
-                    return True
-        return False
-    visit(jf.f.body, [])
-    return out
-
-
-def _classify_flags(ctx, jf: JoinFacts):
-    """Which flag guards the raise in the probe loop (LEFT) and which the raise outside it (RIGHT)."""
-    right_flag = left_flag = None
-    right_raise = left_raise = None
-    raises = [s for s in walk_stmts(jf.f.body) if isinstance(s, ast.Raise)]
-    for r in raises:
-        if jf.validation is not None and r in jf.validation.body:
-            continue
-        guards = _guards(jf, r)
-        flags_here = set()
-        for test, pol in guards:
-            flags_here |= (loads(test) & set(jf.flags))
-        if not flags_here:
-            continue
-        in_probe = any(s is r for s in walk_stmts(jf.probe_loop.body))
-        in_index = any(s is r for s in walk_stmts(jf.index_loop.body))
-        if len(flags_here) != 1:
-            raise AnalysisError(f"{jf.f.qualname}: a raise is guarded by several cardinality flags {flags_here}")
-        fl = next(iter(flags_here))
-        if in_probe:
-            if left_flag not in (None, fl):
-                raise AnalysisError(f"{jf.f.qualname}: two different flags guard raises in the probe loop")
-            left_flag, left_raise = fl, r
-        else:
-            if right_flag not in (None, fl):
-                raise AnalysisError(f"{jf.f.qualname}: two different flags guard raises outside the probe loop")
-            right_flag, right_raise = fl, r
-    return right_flag, right_raise, left_flag, left_raise
-
-
-def _right_check(jf: JoinFacts, flag: Optional[str], rz: Optional[ast.Raise]):
-    if flag is None or rz is None:
-        return False, "no raise guarded by a right-uniqueness flag was found", None
-    if raise_class(rz) != "SerifValueError":
-        return False, f"right-duplicate raise uses {raise_class(rz)}, must be SerifValueError", rz
-    guards = _guards(jf, rz)
-    # exactly one guard: `flag and dups`
-    if len(guards) != 1 or guards[0][1] is not True:
-        return False, f"right-duplicate raise is under {len(guards)} nested condition(s), expected exactly `flag and duplicates`", rz
-    test = guards[0][0]
-    if not (isinstance(test, ast.BoolOp) and isinstance(test.op, ast.And) and len(test.values) == 2
-            and all(isinstance(v, ast.Name) for v in test.values)):
-        return False, f"right-duplicate condition is `{short(test)}`, expected `<flag> and <duplicates>`", rz
-    names = {v.id for v in test.values}
-    if flag not in names:
-        return False, "right-duplicate condition does not test the flag", rz
-    dups = next(iter(names - {flag}))
-    # the raise must come after the index loop and before the probe loop (all right rows indexed, nothing emitted)
-    order = [s for s in jf.top]
-    try:
-        holder = next(s for s in order if any(x is rz for x in walk_stmts([s])))
-        if not (order.index(jf.index_loop) < order.index(holder) < order.index(jf.probe_loop)):
-            return False, "right-duplicate raise is not between the index loop and the probe loop", rz
-    except StopIteration:
-        return False, "right-duplicate raise is not at function top level", rz
-    # index loop covers all right rows
-    if jf.loop_range_of(jf.index_loop) != "RIGHT-ROWS":
-        return False, f"index loop ranges over {jf.loop_range_of(jf.index_loop)}, not all right rows", jf.index_loop
-    # `dups` is initialised empty and becomes non-empty iff a bucket receives a second element:
-    stores = [s for s in walk_stmts(jf.f.body)
-              if isinstance(s, ast.Assign) and len(s.targets) == 1 and isinstance(s.targets[0], ast.Subscript)
-              and isinstance(s.targets[0].value, ast.Name) and s.targets[0].value.id == dups]
-    if not stores:
-        return False, f"`{dups}` never receives an entry", rz
-    inits = jf.defs.values(dups)
-    if not inits or not all(isinstance(v, (ast.Dict, ast.List, ast.Set)) and not getattr(v, "keys", getattr(v, "elts", [])) or
-                            (isinstance(v, ast.Call) and isinstance(v.func, ast.Name) and v.func.id in ("dict", "list", "set") and not v.args)
-                            for v in inits):
-        return False, f"`{dups}` is not initialised empty", rz
-    # other mutations of dups
-    for n in walk_no_nested(jf.f.node):
-        if isinstance(n, ast.Call) and isinstance(n.func, ast.Attribute) and isinstance(n.func.value, ast.Name) \
-                and n.func.value.id == dups and n.func.attr in ("pop", "clear", "popitem", "update", "setdefault", "__delitem__"):
-            return False, f"`{dups}` is also modified by .{n.func.attr}()", n
-    for s in walk_stmts(jf.f.body):
-        if isinstance(s, ast.Delete) and any(dups in loads(t) for t in s.targets):
-            return False, f"entries of `{dups}` are deleted", s
-    for st in stores:
-        if not any(x is st for x in walk_stmts(jf.index_loop.body)):
-            return False, f"`{dups}` is filled outside the index loop", st
-        g = [(t, p) for t, p in _guards(jf, st)]
-        # must be in the not-first-sight branch of the bucket test: `bucket is None` False, or `bucket` truthy etc.
-        bucket_branch = False
-        extra = []
-        for t, p in g:
-            nm = _bucket_none_test(t)
-            if nm is not None and jf._is_bucket(nm[0]):
-                # (is None, polarity False)  or (is not None, polarity True)
-                if (nm[1] and not p) or ((not nm[1]) and p):
-                    bucket_branch = True
-                    continue
-                return False, f"`{dups}` is recorded on FIRST sight of a key, not on a repeat", st
-            extra.append((t, p))
-        if not bucket_branch:
-            return False, f"`{dups}` entry is not in the repeated-key branch of the bucket test", st
-        for t, p in extra:
-            nms = loads(t)
-            # allowed extra guards: the flag itself, and `key not in dups`
-            if nms <= {flag} and p:
-                continue
-            if isinstance(t, ast.BoolOp) and isinstance(t.op, ast.And) and p and all(
-                    (isinstance(v, ast.Name) and v.id == flag) or _is_not_in(v, dups) for v in t.values):
-                continue
-            if _is_not_in(t, dups) and p:
-                continue
-            return False, f"`{dups}` entry is additionally guarded by `{short(t)}`", st
-    return True, f"raise SerifValueError iff {flag} and a right key repeats (duplicates recorded in `{dups}` while indexing all right rows)", rz
-
-
-def _bucket_none_test(t: ast.AST):
-    from ..astutil import none_test
-    nt = none_test(t)
-    if nt is not None and "." not in nt[0]:
-        return nt
-    return None
-
-
-def _is_not_in(t: ast.AST, container: str) -> bool:
-    return isinstance(t, ast.Compare) and len(t.ops) == 1 and isinstance(t.ops[0], ast.NotIn) \
-        and isinstance(t.comparators[0], ast.Name) and t.comparators[0].id == container
-
-
-def _left_check(jf: JoinFacts, flag: Optional[str], rz: Optional[ast.Raise]):
-    if flag is None or rz is None:
-        return False, "no raise guarded by a left-uniqueness flag was found in the probe loop", None
-    if raise_class(rz) != "SerifValueError":
-        return False, f"left-duplicate raise uses {raise_class(rz)}, must be SerifValueError", rz
-    if jf.loop_range_of(jf.probe_loop) != "LEFT-ROWS":
-        return False, f"probe loop ranges over {jf.loop_range_of(jf.probe_loop)}, not all left rows", jf.probe_loop
-    ke = jf.key_expr(jf.probe_loop)
-    if ke is None:
-        return False, "probe key construction not recognised", jf.probe_loop
-    key_var = ke[2].targets[0].id if isinstance(ke[2].targets[0], ast.Name) else None
-    guards = _guards(jf, rz)
-    if len(guards) != 2 or not all(p for _, p in guards):
-        return False, f"left-duplicate raise is under {len(guards)} condition(s); expected `if <flag>:` then `if key in <seen>:`", rz
-    (t1, _), (t2, _) = guards
-    if not (isinstance(t1, ast.Name) and t1.id == flag):
-        return False, f"outer condition is `{short(t1)}`, expected the bare flag `{flag}`", rz
-    if not (isinstance(t2, ast.Compare) and len(t2.ops) == 1 and isinstance(t2.ops[0], ast.In)
-            and isinstance(t2.left, ast.Name) and t2.left.id == key_var and isinstance(t2.comparators[0], ast.Name)):
-        return False, f"inner condition is `{short(t2)}`, expected `{key_var} in <seen>`", rz
-    seen = t2.comparators[0].id
-    inits = jf.defs.values(seen)
-    if not inits or not all(isinstance(v, ast.Call) and isinstance(v.func, ast.Name) and v.func.id == "set" and not v.args
-                            for v in inits):
-        return False, f"`{seen}` is not initialised as an empty set", rz
-    # the `if flag:` statement is a direct child of the probe loop body
-    flag_if = None
-    for st in jf.probe_loop.body:
-        if isinstance(st, ast.If) and st.test is t1:
-            flag_if = st
-    if flag_if is None:
-        return False, "the left-uniqueness block is not directly in the probe loop body (it may be skipped on some rows)", rz
-    # seen.add(key) unconditionally at the end of the flag block (after the membership test)
-    adds = [s for s in flag_if.body if isinstance(s, ast.Expr) and isinstance(s.value, ast.Call)
-            and attr_chain(s.value.func) == [seen, "add"] and len(s.value.args) == 1
-            and isinstance(s.value.args[0], ast.Name) and s.value.args[0].id == key_var]
-    if len(adds) != 1:
-        return False, f"`{seen}.add({key_var})` does not run unconditionally in the flag block", flag_if
-    inner_if = [s for s in flag_if.body if isinstance(s, ast.If) and s.test is t2]
-    if not inner_if or flag_if.body.index(inner_if[0]) > flag_if.body.index(adds[0]):
-        return False, "the key is recorded before it is tested (every key would look repeated)", flag_if
-    if flag_if.orelse:
-        return False, "the flag block has an else branch", flag_if
-    # other mutations of seen
-    for n in walk_no_nested(jf.f.node):
-        if isinstance(n, ast.Call) and isinstance(n.func, ast.Attribute) and isinstance(n.func.value, ast.Name) \
-                and n.func.value.id == seen and n.func.attr not in ("add",):
-            return False, f"`{seen}` is also modified by .{n.func.attr}()", n
-    # precedes the matched / unmatched split: no continue/break/return and no index lookup before it in the loop body,
-    # and the key statement precedes it
-    pos = jf.probe_loop.body.index(flag_if)
-    if jf.probe_loop.body.index(ke[2]) > pos:
-        return False, "the key is built after the left-uniqueness block", flag_if
-    for st in jf.probe_loop.body[:pos]:
-        for s in walk_stmts([st]):
-            if isinstance(s, (ast.Continue, ast.Break, ast.Return)):
-                return False, "a row can leave the loop iteration before the left-uniqueness check (unmatched rows would be skipped)", s
-        for n in walk_no_nested(st):
-            if isinstance(n, ast.Call) and _callee(n) in jf.index_get:
-                return False, "the index lookup happens before the left-uniqueness check", st
-    return True, (f"raise SerifValueError iff {flag} and the left key was seen before; key recorded every iteration; "
-                  f"check precedes the matched/unmatched split"), rz
-
-
-def _no_influence(jf: JoinFacts):
-    """Taint closure of (expect, flags, bookkeeping) must not reach any non-bookkeeping statement."""
-    f = jf.f
-    taint: Set[str] = {jf.p_expect} | set(jf.flags)
-    changed = True
-    all_stmts = list(walk_stmts(f.body))
-
-    def targets_of(st):
-        out = set()
-        tg = []
-        if isinstance(st, ast.Assign):
-            tg = st.targets
-        elif isinstance(st, (ast.AugAssign, ast.AnnAssign)):
-            tg = [st.target]
-        for t in tg:
-            for n in ast.walk(t):
-                if isinstance(n, ast.Name) and isinstance(n.ctx, ast.Store):
-                    out.add(n.id)
-        return out
-
-    while changed:
-        changed = False
-        for st in all_stmts:
-            if isinstance(st, (ast.Assign, ast.AugAssign, ast.AnnAssign)) and st.value is not None:
-                if loads(st.value) & taint:
-                    new = targets_of(st) - taint
-                    if new:
-                        taint |= new
-                        changed = True
-            if isinstance(st, ast.If) and (loads(st.test) & taint):
-                for s in walk_stmts(st.body + st.orelse):
-                    new = targets_of(s) - taint
-                    if new:
-                        taint |= new
-                        changed = True
-    # a tainted name must never be a structural role
-    roles = {jf.index_var, jf.result_data, jf.pairs_var, jf.left_keys, jf.right_keys} | jf.append_alias | \
-        jf.left_cols | jf.right_cols | jf.left_nrows | jf.right_nrows | jf.n_left_cols | jf.n_right_cols | jf.bucket_vars()
-    bad = taint & {r for r in roles if r}
-    if bad:
-        return False, f"cardinality options flow into structural variable(s) {sorted(bad)}", None
-
-    def allowed(st: ast.stmt, under_taint: bool) -> Optional[ast.stmt]:
-        """None if fine, else the offending statement."""
-        refs = set()
-        for n in walk_no_nested(st) if not isinstance(st, (ast.If, ast.For, ast.While, ast.Try, ast.With)) else []:
-            if isinstance(n, ast.Name):
-                refs.add(n.id)
-        if isinstance(st, ast.If):
-            t_taint = bool(loads(st.test) & taint)
-            for s in st.body + st.orelse:
-                r = allowed(s, under_taint or t_taint)
-                if r is not None:
-                    return r
-            return None
-        if isinstance(st, (ast.For, ast.While)):
-            hdr = st.iter if isinstance(st, ast.For) else st.test
-            if loads(hdr) & taint:
-                return st
-            if under_taint:
-                return st
-            for s in st.body + st.orelse:
-                r = allowed(s, under_taint)
-                if r is not None:
-                    return r
-            return None
-        if isinstance(st, ast.Try):
-            for s in st.body + st.orelse + st.finalbody + [x for h in st.handlers for x in h.body]:
-                r = allowed(s, under_taint)
-                if r is not None:
-                    return r
-            return None
-        if isinstance(st, ast.With):
-            for s in st.body:
-                r = allowed(s, under_taint)
-                if r is not None:
-                    return r
-            return None
-        touches = bool(refs & taint) or under_taint
-        if not touches:
-            return None
-        # bookkeeping shapes
-        if isinstance(st, ast.Raise):
-            return None
-        if isinstance(st, (ast.Assign, ast.AugAssign, ast.AnnAssign)):
-            tg = st.targets if isinstance(st, ast.Assign) else [st.target]
-            roots = set()
-            for t in tg:
-                n = t
-                while isinstance(n, (ast.Subscript, ast.Attribute)):
-                    n = n.value
-                for e in ([n] if not isinstance(n, (ast.Tuple, ast.List)) else n.elts):
-                    if isinstance(e, ast.Name):
-                        roots.add(e.id)
-                    else:
-                        return st
-            return None if roots <= taint else st
-        if isinstance(st, ast.Expr) and isinstance(st.value, ast.Call) and isinstance(st.value.func, ast.Attribute) \
-                and isinstance(st.value.func.value, ast.Name) and st.value.func.value.id in taint \
-                and st.value.func.attr in ("add", "append"):
-            return None
-        if isinstance(st, ast.Pass):
-            return None
-        return st
-
-    for st in f.body:
-        r = allowed(st, False)
-        if r is not None:
-            return False, (f"a statement that is not cardinality bookkeeping depends on expect/flags "
-                           f"(tainted names: {sorted(taint)}): {short(r, 90)}"), r
-    return True, f"expect/flags reach only tests, bookkeeping {sorted(taint - {jf.p_expect} - set(jf.flags))} and messages", None
 
 
 # ---------------------------------------------------------------------------
